@@ -492,6 +492,9 @@ def run(facts, rep, tier, ctx):
     # something underneath failed — a panic there replaces the Err the caller was owed (C13's sites, restricted to that file)
     from . import c13 as _c13e
     _c13e.sites_for(facts, rep, ctx["V"], "R20.p", lambda r: r.file == "src/error.rs" or r.file.endswith("/src/error.rs"))
+    # ... nor can the composite operations of the path types while they handle one: an `unreachable!()` in the arm that receives the
+    # backend's error ("the parent has just been created") turns that failure into a panic
+    _c13e.sites_for(facts, rep, ctx["V"], "R20.p", lambda r: r.file.endswith(("src/path.rs", "src/async_vfs/path.rs")))
     k10 = not_supported_from_errors(facts, rep, "R20.10", D)
     rep.floor("NotSupported construction sites judged (R20.10)", k10, 10)
     rep.floor("DirectoryExists construction sites (whole crate)", k2, 6)
